@@ -1263,6 +1263,8 @@ def rename_unread(spec, path, chk):
 def run(chk):
     import itertools
     chk.extra["rule"] = RULE
+    from .c08_strict import run_strict
+    run_strict(chk)             # histories with warnings raised as errors and numpy raising on floating-point errors
     chk.assumptions += ["series objects are abstract identities in the registry model; the Lean binding model (Qats.Binding) follows "
                         "where the content of every object comes from (record number / data set name / added series / deep copy) and "
                         "which record every key is registered for; its prediction is compared per operation with a plain dictionary "
@@ -1407,6 +1409,9 @@ def replay(rp):
     if inp.get("kind") == "big":
         from .c08_big import replay_big
         return replay_big(inp)
+    if inp.get("kind") == "strict":
+        from .c08_strict import replay_strict
+        return replay_strict(inp)
     fl = Files()
     try:
         chk = core.Check("C08", "quick", 0)
